@@ -29,6 +29,10 @@ def dohFaultOf (id : Nat) (toks : List String) : Option DohFault :=
   | ["status", c] => do let c ← c.toNat?; pure (.status c [.eof []])
   | ["empty"] => some (.status 200 [.eof []])
   | ["midhang", _, _] => some (.status 200 [.data [0], .fail])   -- some bytes, then the deadline fires
+  | ["shortcl", _, _] | ["finmid", _, _] =>
+      -- fewer bytes than the declared Content-Length, then a clean end of stream / connection:
+      -- the body reader reports an error (unexpected EOF), the message is NOT complete
+      some (.status 200 [.data [0], .fail])
   | ["trickle"] => some (.status 200 [.data [0], .fail])
   | ["hang"] | ["reset"] | ["stall"] | ["abort"] => some .transportError
   | _ => none
